@@ -77,6 +77,9 @@ func randTag(r *core.RNG, names []string, malformed bool) tagLine {
 			t.K = "gengo:" + g + "::sub"
 		}
 	}
+	if r.Chance(25) { // spacing of the comment line: `//+k`, `//   +k  `
+		t.Sp = 1 + r.Intn(2)
+	}
 	return t
 }
 
